@@ -151,6 +151,31 @@ func (ex *Exec) execBlock(fr *Frame, b *ssa.BasicBlock, in *State) *State {
 			for _, r := range x.Results {
 				vals = append(vals, ex.val(fr, st, r))
 			}
+			if fr.con != nil && fr.depth == 0 && ex.dry == 0 {
+				for _, ca := range fr.con.Asserts {
+					if ca.Callee != "$return" {
+						continue
+					}
+					env := ex.newEnv(fr.con.PkgPath, st)
+					if fr.env0 != nil {
+						for k, v := range fr.env0.vars {
+							env.vars[k] = v
+						}
+					}
+					for k, v := range fr.params {
+						env.vars[k] = v
+					}
+					env.frame = fr
+					env.old = fr.env0
+					env.wmPre = ex.entry.wm
+					rt := resultType(fr.fn.Signature)
+					env.setResults(rt, tupleVal(rt, vals...))
+					g := ex.evalBool(env, ca.Clause)
+					o := ex.oblige(st, "assert", fmt.Sprintf("assert:%s@return", clauseName(ca.Clause, 0)), g, x.Pos())
+					o.Props = ca.Clause.Props
+					ex.assume(st, g)
+				}
+			}
 			fr.rets = append(fr.rets, retPoint{st: st, vals: vals})
 			return nil
 		case *ssa.SliceToArrayPointer:
@@ -254,7 +279,7 @@ func (ex *Exec) doAlloc(fr *Frame, st *State, x *ssa.Alloc) {
 	et := derefType(x.Type())
 	if x.Heap && isStructLike(et) {
 		// real heap object
-		id := ex.alloc(st)
+		id := ex.alloc(st, "H_"+heapKeyT(et))
 		ex.zeroObject(st, id, et)
 		fr.regs[x] = Val{T: x.Type(), L: []*Term{id}}
 		return
@@ -262,9 +287,9 @@ func (ex *Exec) doAlloc(fr *Frame, st *State, x *ssa.Alloc) {
 	if x.Heap {
 		if _, isArr := types.Unalias(et).Underlying().(*types.Array); isArr {
 			// backing array for varargs / composite literals
-			id := ex.alloc(st)
-			fr.regs[x] = Val{T: x.Type(), L: []*Term{id}}
 			at := types.Unalias(et).Underlying().(*types.Array)
+			id := ex.alloc(st, "E_"+heapKeyT(at.Elem()))
+			fr.regs[x] = Val{T: x.Type(), L: []*Term{id}}
 			// zero elements
 			for _, l := range Layout(at.Elem()) {
 				name := elemHeapName(at.Elem(), l.Path)
@@ -273,6 +298,13 @@ func (ex *Exec) doAlloc(fr *Frame, st *State, x *ssa.Alloc) {
 			}
 			return
 		}
+	}
+	if x.Heap && storedToHeap(x) {
+		// a local whose address is stored into an object: model it as a real heap box
+		id := ex.alloc(st, "H_"+heapKeyT(et))
+		ex.zeroObject(st, id, et)
+		fr.regs[x] = Val{T: x.Type(), L: []*Term{id}}
+		return
 	}
 	c := fr.cells[x]
 	if c == nil {
@@ -384,8 +416,8 @@ func (ex *Exec) doLookup(fr *Frame, st *State, x *ssa.Lookup) Val {
 
 func (ex *Exec) doMakeSlice(fr *Frame, st *State, x *ssa.MakeSlice) Val {
 	ln := ex.val(fr, st, x.Len).S()
-	id := ex.alloc(st)
 	el := types.Unalias(x.Type()).Underlying().(*types.Slice).Elem()
+	id := ex.alloc(st, "E_"+heapKeyT(el))
 	for _, l := range Layout(el) {
 		name := elemHeapName(el, l.Path)
 		h := ex.heapGet(st, name, ArrSort(SInt, ArrSort(SInt, l.Sort)))
@@ -481,6 +513,8 @@ func (ex *Exec) doTypeAssert(fr *Frame, st *State, x *ssa.TypeAssert) Val {
 		for i, l := range ls {
 			out.L[i] = UF("payload_"+heapKeyT(x.AssertedType)+"_"+sanitize(l.Path), l.Sort, id)
 		}
+		// what an existing interface value holds exists: references in the payload are allocated objects
+		ex.typeFacts(st, out)
 	}
 	if x.CommaOk {
 		// zero value when !ok
@@ -744,6 +778,8 @@ func (ex *Exec) arithResult(st *State, x *ssa.BinOp, r *Term) *Term {
 	if ex.arith {
 		ex.oblige(st, "overflow", "overflow", And(Ge(r, lo), Le(r, hi)), x.Pos())
 		ex.assume(st, And(Ge(r, lo), Le(r, hi)))
+	} else if ex.ranged {
+		ex.assume(st, And(Ge(r, lo), Le(r, hi)))
 	}
 	return r
 }
@@ -794,10 +830,12 @@ func (ex *Exec) doConvert(fr *Frame, st *State, x *ssa.Convert) Val {
 	switch {
 	case isIntT(from) && isIntT(to):
 		r := v.S()
-		if ex.arith {
+		if ex.arith || ex.ranged {
 			u := types.Unalias(to).Underlying().(*types.Basic)
 			if lo, hi, ok := intRange(u); ok {
-				ex.oblige(st, "overflow", "overflow", And(Ge(r, lo), Le(r, hi)), x.Pos())
+				if ex.arith {
+					ex.oblige(st, "overflow", "overflow", And(Ge(r, lo), Le(r, hi)), x.Pos())
+				}
 				ex.assume(st, And(Ge(r, lo), Le(r, hi)))
 			}
 		}
@@ -827,4 +865,28 @@ func (ex *Exec) doConvert(fr *Frame, st *State, x *ssa.Convert) Val {
 	}
 	unsupported("conversion %v -> %v", from, to)
 	return Val{}
+}
+
+// storedToHeap: is the address produced by this Alloc itself stored somewhere (field, element, map, another variable)?
+func storedToHeap(a *ssa.Alloc) bool {
+	refs := a.Referrers()
+	if refs == nil {
+		return false
+	}
+	for _, r := range *refs {
+		switch x := r.(type) {
+		case *ssa.Store:
+			if x.Val == ssa.Value(a) {
+				if dst, ok := x.Addr.(*ssa.Alloc); ok && !dst.Heap {
+					continue // pointer kept in a plain local
+				}
+				return true
+			}
+		case *ssa.MapUpdate:
+			if x.Value == ssa.Value(a) || x.Key == ssa.Value(a) {
+				return true
+			}
+		}
+	}
+	return false
 }
